@@ -327,6 +327,16 @@ Proof. intros H. unfold format_seq. rewrite (map_nth_error _ _ _ H). reflexivity
 Theorem format_seq_length l : length (format_seq l) = length l.
 Proof. apply map_length. Qed.
 
+(* ---------- the formatter object is a value ---------- *)
+
+(* relocating the formatter between two groups of arguments changes nothing *)
+Theorem reloc_chain_value fmt pre post : reloc_chain fmt pre post = format_chain fmt (pre ++ post).
+Proof. unfold reloc_chain, relocate, format_chain, apply_ops. rewrite fold_left_app. reflexivity. Qed.
+
+Theorem reloc_chain_spec fmt pre post :
+  reloc_chain fmt pre post = spec_format fmt (map render (flatten_ops (pre ++ post))).
+Proof. rewrite reloc_chain_value, percent_and_args_agree. apply format_spec. Qed.
+
 (* ---------- operator<< : all or nothing, one item ---------- *)
 
 Theorem stream_out_raise_unchanged o f e : str_of f = Raise e -> stream_out o f = (o, Some e).
